@@ -301,6 +301,7 @@ impl Property for C03 {
         let cfg = SimCfg {
             rng_seed: rng.next_u64(),
             epoch_s: 1_000_000_000 + rng.below(1_000_000_000),
+            epoch_sub_us: 0,
             tick_us: tick,
             duration_ms: 3_600_000,
             min_latency_us,
